@@ -8,7 +8,7 @@ that answers 400 and does not re-raise; GET/POST registration, parameter source 
 """
 import ast
 
-from ..model import AnalysisError, src, callee_name, dotted, walk_local, calls_in, FUNC, names_in
+from ..model import AnalysisError, src, callee_name, dotted, walk_local, calls_in, FUNC, names_in, pos
 from ..flow import Sem
 from ..common import loop_closures, closure_escapes, CompletionSem, resolve_single_assign, ancestors, in_loop, is_awaited, handle_type_accepted
 from ..selftest import Seed
@@ -266,7 +266,7 @@ def _check_shutdown(ctx, repo):
     attr = dotted(cl[0].func.value)
     clears = [nn for nn in walk_local(sh.node) if isinstance(nn, ast.Assign) and isinstance(nn.value, ast.Constant) and nn.value.value is None
               and any(dotted(t) == attr for t in nn.targets)]
-    ctx.ob("C20-R4", sh.fq, f"{attr} is cleared after the cleanup", bool(clears) and all(c.lineno > cl[0].lineno for c in clears), node=sh.node,
+    ctx.ob("C20-R4", sh.fq, f"{attr} is cleared after the cleanup", bool(clears) and all(pos(c) > pos(cl[0]) for c in clears), node=sh.node,
            construct="handle cleared after cleanup")
     # the system function blocks on it
     sysfn = [f for f in m.funcs.values() if f.parent is None and not f.cls and any(
@@ -332,8 +332,8 @@ def _check_ws(ctx, repo):
             marg = c.args[idx + 1] if idx + 1 < len(c.args) else None
             defs = [nn for nn in walk_local(L.node) if isinstance(nn, ast.Assign) and isinstance(marg, ast.Name) and
                     any(isinstance(t, ast.Name) and t.id == marg.id for t in nn.targets)]
-            last = max(defs, key=lambda d: d.lineno) if defs else None
-            ok = last is not None and last.lineno < c.lineno and isinstance(last.value, ast.Call) and is_decode(last.value)
+            last = max(defs, key=lambda d: pos(d)) if defs else None
+            ok = last is not None and pos(last) < pos(c) and isinstance(last.value, ast.Call) and is_decode(last.value)
             ctx.ob("C20-R5", L.fq, "the value dispatched is the decoded message (last definition before the dispatch is decode_message(...))", ok, node=c,
                    construct="dispatch argument is the decoded message")
         # the caller loop awaits each invocation
